@@ -116,7 +116,8 @@ def frame_rule(ctx: Ctx, rs: RuleSet, rule: str, q: str, tag_expr: str):
             c.func.id == 'issubclass' and len(c.args) == 2 and
             unparse(ge.generators[0].iter) == tname and
             unparse(c.args[0]) == unparse(ge.generators[0].target) and
-            unparse(c.args[1]) == tag_expr and not ge.generators[0].ifs):
+            unparse(roles.deref(f, c.args[1])) == tag_expr and
+            not ge.generators[0].ifs):
           # sink reachable only through the true edge
           r = g.reach([g.entry], labels=cfg_lib.NO_EXC,
                       edge_ok=lambda a, b, lab, m=m, pl=pass_label: not (
@@ -160,7 +161,8 @@ def run(ctx: Ctx, rs: RuleSet, tier: str):
         ge = t.args[0]
         c = ge.elt
         if (isinstance(c, ast.Call) and unparse(c.func) == 'issubclass' and
-            len(c.args) == 2 and unparse(c.args[1]) == 'self.tag' and
+            len(c.args) == 2 and unparse(
+                roles.deref(it, c.args[1])) == 'self.tag' and
             unparse(c.args[0]) == unparse(ge.generators[0].target) and
             unparse(ge.generators[0].iter) in tag_vars and
             not ge.generators[0].ifs):
